@@ -197,10 +197,24 @@ fn run_one(input: &Value) -> Value {
     let kind = input["kind"].as_str().unwrap_or("simple");
     let origin_v = bytes_of(&input["origin"]);
     let origin = if origin_v.is_empty() { None } else { Some(&origin_v[..]) };
+    // adm = false: the specification says the constructors do not admit the
+    // record (a field value outside Admitted(kind, v)): nothing to round-trip
+    let not_admitted = input.get("adm") == Some(&json!(false));
+    let na = || json!({"lib": "na", "spec": "na", "tok": "na", "tokm": "na", "lbl": "na", "cs": "na"});
     let rec = match zf::record_via(&mk, &mkd, &owner, class, ttl, rtype, &rdata) {
         Ok(r) => r,
+        Err(_) if not_admitted => return na(),
         Err(e) => return json!({"bad_wire": e}),
     };
+    // carrier records of the restricted-alphabet fields: the typed constructors
+    // admit exactly what the wire parser admits, and build the same data
+    if input.get("type_case").is_none() {
+        match present_types::typed_fields(rtype, &rdata) {
+            Some(Ok(d)) if d != *rec.data() => return json!({"typed_constructors": "build different data"}),
+            Some(Err(e)) => return json!({"typed_constructors": e}),
+            _ => {}
+        }
+    }
     let text = zf::write_record_via(&wr, &rec, kind);
     zf::tick(&text);
     let mut lib = zf::read_back(&rec, text.as_bytes(), origin);
@@ -224,6 +238,11 @@ fn run_one(input: &Value) -> Value {
     }
     if let Some(c) = input.get("ctexts") {
         obs["cs"] = cs_obs(c);
+    }
+    if not_admitted && ["lib", "spec", "tok", "tokm", "lbl", "cs"].iter().all(|k| obs[*k] == json!("eq")) {
+        // the library admits more than the specification's Admitted: the law
+        // holds for the record all the same, nothing to report
+        return na();
     }
     obs
 }
